@@ -208,3 +208,44 @@ theorem deltaLoop_q {As : List Aff} (hn : As.Nodup) (day : Int) (idx : Nat) (pos
         exact ⟨d :: out, e, by simp, by simp⟩
 
 end Acb
+
+namespace Acb
+
+theorem sumOver_zero (l : List Aff) : sumOver l (fun _ => (0 : Rat)) = 0 := by
+  induction l with
+  | nil => simp
+  | cons a as ih => simp only [sumOver_cons, ih]; grind
+
+theorem Tracker.new_sumInv {As : List Aff} (hn : As.Nodup) {dflt : Aff} {init : Option Status} {t : Tracker}
+    (hd : init ≠ none → dflt ∈ As) (h : Tracker.new dflt init = .ok t) : SumInv As t := by
+  have h0 : SumInv As { m := fun _ => none, latestAll := 0, latestAff := dflt } := by
+    refine ⟨fun a _ => by simp [Tracker.bal], ?_, by simp [Tracker.latestPostAll]⟩
+    have : (Tracker.bal { m := fun _ => none, latestAll := 0, latestAff := dflt }) = fun _ => (0 : Rat) := by
+      funext a; simp [Tracker.bal]
+    rw [this, sumOver_zero]
+  unfold Tracker.new at h
+  cases init with
+  | none => simp only [Except.ok.injEq] at h; subst h; exact h0
+  | some st =>
+    simp only at h
+    split at h
+    · exact h0.setLatest hn (hd (by simp)) h
+    · cases h
+
+theorem deltaList_eq_loop {dflt : Aff} {init : Option Status} {t : Tracker} (h : Tracker.new dflt init = .ok t)
+    (txs : List Tx) : deltaList dflt init txs = deltaLoop t [] [] txs := by
+  unfold deltaList
+  cases txs with
+  | nil => simp [deltaLoop]
+  | cons x xs => simp only [h]
+
+theorem splitRows_reverse (day : Int) (idx : Nat) (post pre : Rat) (L : List Aff) :
+    (splitRows day idx post pre L).reverse = splitRows day idx post pre L.reverse := by
+  unfold splitRows; rw [List.map_reverse]
+
+theorem nodup_reverse_aff {l : List Aff} (h : l.Nodup) : l.reverse.Nodup := by
+  unfold List.Nodup at *
+  rw [List.pairwise_reverse]
+  exact h.imp (fun h => Ne.symm h)
+
+end Acb
